@@ -102,8 +102,11 @@ def compare(case: dict, image: bytes, lines: List[str], files: Dict[str, bytes],
     return problems
 
 
-def run_case(chk: Check, case: dict, seed: int, label: str, wav_sink=None) -> bool:
+def run_case(chk: Check, case: dict, seed: int, label: str, wav_sink=None, trim: bool = False) -> bool:
     image = rw.build_image(case, seed)
+    if trim:          # a compact dump: the file ends right behind the highest used data cluster
+        top = max([c for s_ in case["img"]["samples"] for c in s_["chain"]] + [2])
+        image = image[: rw.A["data_fat"] + (top + 1) * case["C"]]
     work = tlc.scratch_dir("c02_")
     try:
         lines, files, err = export_image(image, work)
@@ -114,7 +117,7 @@ def run_case(chk: Check, case: dict, seed: int, label: str, wav_sink=None) -> bo
             for rel, b in files.items():
                 wav_sink(rel, b, None)
         if problems:
-            chk.violation({"case": case, "seed": seed}, "; ".join(problems)[:1500])
+            chk.violation({"case": case, "seed": seed, "trim": trim}, "; ".join(problems)[:1500])
             return False
         chk.agree()
         return True
@@ -129,7 +132,8 @@ def run(chk: Check):
                 "images at the real constants over shapes (1-3 samples, 1-2 partials/patches/performances, 0-2 volumes, shared and "
                 "orphaned performances), chain classes, cluster_top 0/1, 7 modes, 6 frequency codes, FAT version flag 1/2, five "
                 "point classes incl. windows filling the last cluster exactly, two samples sharing one chain behind different "
-                "leading-cluster offsets; non-trivial = a sample spans >= 2 data clusters")
+                "leading-cluster offsets; every second image is cut right behind its highest used cluster (compact dump); "
+                "non-trivial = a sample spans >= 2 data clusters")
     for ncl, ns, mc in ([(6, 1, 2)] if not thorough else [(7, 1, 3), (6, 2, 1)]):
         chk.run_tlc("RolandImage", design_cfg(ncl, ns, mc), label=f"design tiny clusters<{ncl} samples<={ns} chain<={mc}",
                     timeout_s=3000, heap="8g")
@@ -152,7 +156,7 @@ def run(chk: Check):
         random.Random(chk.seed).shuffle(cases)            # not a stride: neighbours differ only in FAT version / spread
         cases = cases[:220]
     for i, case in enumerate(cases):
-        run_case(chk, case, chk.seed + i, "real")
+        run_case(chk, case, chk.seed + i, "real", trim=bool(i % 2))
     c = cases[len(cases) // 2]
     chk.sample({"samples": c["img"]["samples"], "vols": c["img"]["vols"], "perfs": c["img"]["perfs"],
                 "expected": [(e["volume"], e["performance"], sorted(s["name"] for s in e["samples"])) for e in c["expected"]]})
@@ -165,5 +169,5 @@ def run(chk: Check):
 
 def replay(chk: Check, path: str):
     rec = json.load(open(path))
-    run_case(chk, rec["case"]["case"], rec["case"]["seed"], "replay")
+    run_case(chk, rec["case"]["case"], rec["case"]["seed"], "replay", trim=rec["case"].get("trim", False))
     chk.run_tlc("RolandImage", design_cfg(6, 1, 1), label="design (replay context)", timeout_s=600)
